@@ -135,6 +135,8 @@ def enumerate_refs(tier, rng):
 ABS_PATHS = ['/a/b/f', '//a/f', '/a//f', '/a/b//', '/a/b/', '/a', '//a', '//', '/', '/a//', '///x', '/a/b//f', '/a.b/c.d/e.f',
              '/stage1.x/y', '/data/x', '/%(v)s/x', '/a/b/c/d/e.txt', '/a/', '/a_s//', '/opt//data.d/sub/f.txt', '/x/stage1.A']
 
+# Fixed corpus, enumerated FIRST and independent of VERIF_SEED: one witness per OPEN finding (F9a, F9b, F9d, F9e), so that each
+# KNOWN-FINDING line is printed on every run, plus the witness of the repaired defect F9c and the boundary cases of the guards.
 CORPUS = [
     (2, 'foo/bar/f.txt:ref'),      # F9c (fixed): nested manifest key
     (2, 'foo/f.txt:ref'), (2, 'foo:ref'), (3, 'foo/bar/baz/q:copy'), (5, 'bar/foo/x:ref'),
